@@ -714,6 +714,86 @@ def _remove_stmt(root: ast.AST, st: ast.stmt) -> None:
                 return
 
 
+_ITER_WRAPPERS = {"track", "list", "tuple", "iter", "reversed", "tqdm"}
+
+
+def _namedtuple_fields_by_index(tree: ast.Module, classes: dict[str, list[str]]) -> int:
+    """Local type inference for module-level NamedTuple classes: a name bound to `C(...)`, or the target of a loop over
+    a list built only from `C(...)` values, has `name.field` rewritten as `name[i]`; a loop variable used only through
+    such subscripts becomes a tuple target."""
+    done = 0
+
+    def ctor(e):
+        return e.func.id if isinstance(e, ast.Call) and isinstance(e.func, ast.Name) and e.func.id in classes else None
+
+    for fn in [n for n in ast.walk(tree) if isinstance(n, (ast.FunctionDef, ast.AsyncFunctionDef))]:
+        inst: dict[str, set] = {}
+        lists: dict[str, set] = {}
+        for n in ast.walk(fn):
+            if isinstance(n, ast.Assign) and len(n.targets) == 1 and isinstance(n.targets[0], ast.Name):
+                t, v = n.targets[0].id, n.value
+                if ctor(v):
+                    inst.setdefault(t, set()).add(ctor(v))
+                elif isinstance(v, ast.ListComp) and ctor(v.elt):
+                    lists.setdefault(t, set()).add(ctor(v.elt))
+                elif isinstance(v, (ast.List, ast.Tuple)) and v.elts and all(ctor(e) for e in v.elts):
+                    lists.setdefault(t, set()).update(ctor(e) for e in v.elts)
+                elif isinstance(v, (ast.List, ast.Tuple)) and not v.elts:
+                    lists.setdefault(t, set())
+                else:
+                    inst.setdefault(t, set()).add(None)
+                    lists.setdefault(t, set()).add(None)
+            elif isinstance(n, ast.Call) and isinstance(n.func, ast.Attribute) and n.func.attr == "append" \
+                    and isinstance(n.func.value, ast.Name) and len(n.args) == 1:
+                lists.setdefault(n.func.value.id, set()).add(ctor(n.args[0]))
+        loops = []
+        for n in ast.walk(fn):
+            if isinstance(n, ast.For) and isinstance(n.target, ast.Name):
+                it = n.iter
+                while isinstance(it, ast.Call) and _dotted(it.func).split(".")[-1] in _ITER_WRAPPERS and it.args:
+                    it = it.args[0]
+                kinds = lists.get(it.id) if isinstance(it, ast.Name) else None
+                inst.setdefault(n.target.id, set()).add(next(iter(kinds)) if kinds and len(kinds) == 1 else None)
+                loops.append(n)
+        typed = {k: next(iter(v)) for k, v in inst.items() if len(v) == 1 and None not in v}
+        if not typed:
+            continue
+
+        class F(ast.NodeTransformer):
+            def visit_Attribute(self, node):  # noqa: N802
+                self.generic_visit(node)
+                nonlocal done
+                if isinstance(node.value, ast.Name) and node.value.id in typed and isinstance(node.ctx, ast.Load) \
+                        and node.attr in classes[typed[node.value.id]]:
+                    done += 1
+                    k = classes[typed[node.value.id]].index(node.attr)
+                    return ast.copy_location(ast.Subscript(value=node.value, slice=ast.Constant(k), ctx=ast.Load()), node)
+                return node
+        F().visit(fn)
+        for lp in loops:
+            v = lp.target.id
+            if v not in typed:
+                continue
+            uses = [n for n in ast.walk(fn) if isinstance(n, ast.Name) and n.id == v and n is not lp.target]
+            subs = [n for n in ast.walk(fn) if isinstance(n, ast.Subscript) and isinstance(n.value, ast.Name) and n.value.id == v
+                    and isinstance(n.slice, ast.Constant) and isinstance(n.slice.value, int)]
+            if not uses or len(uses) != len(subs):
+                continue
+            arity = len(classes[typed[v]])
+            names = [f"{v}__{i}" for i in range(arity)]
+
+            class S(ast.NodeTransformer):
+                def visit_Subscript(self, node):  # noqa: N802
+                    self.generic_visit(node)
+                    if isinstance(node.value, ast.Name) and node.value.id == v and isinstance(node.slice, ast.Constant):
+                        return ast.copy_location(ast.Name(id=names[node.slice.value], ctx=ast.Load()), node)
+                    return node
+            S().visit(fn)
+            lp.target = ast.copy_location(ast.Tuple(elts=[ast.Name(id=x, ctx=ast.Store()) for x in names], ctx=ast.Store()), lp.target)
+    return done
+
+
+
 def _namedtuples_as_tuples(tree: ast.Module) -> int:
     """`class P(NamedTuple): a: int; b: int` ... `P(x, y)` / `P(a=x, b=y)` is the tuple `(x, y)` for every use that
     unpacks or indexes it (field access by name is left alone)."""
@@ -725,9 +805,10 @@ def _namedtuples_as_tuples(tree: ast.Module) -> int:
                 classes[st.name] = fields
     if not classes:
         return 0
-    # a class whose instances are read by field name anywhere is left as it is
-    field_reads = {n.attr for n in ast.walk(tree) if isinstance(n, ast.Attribute)}
-    done = 0
+    done = _namedtuple_fields_by_index(tree, classes)
+    # a class whose instances are still read by field name somewhere is left as it is
+    called = {id(n.func) for n in ast.walk(tree) if isinstance(n, ast.Call)}
+    field_reads = {n.attr for n in ast.walk(tree) if isinstance(n, ast.Attribute) and id(n) not in called}
 
     class T(ast.NodeTransformer):
         def visit_Call(self, node):  # noqa: N802
@@ -753,6 +834,59 @@ def _namedtuples_as_tuples(tree: ast.Module) -> int:
     return done
 
 
+def _sugar_divmod(fn: ast.FunctionDef) -> int:
+    """`q = a // b` next to `r = a % b` (either order, same operands, neither target among them) is `q, r = divmod(a, b)`."""
+    done = 0
+    for node in ast.walk(fn):
+        for field in ("body", "orelse", "finalbody"):
+            body = getattr(node, field, None)
+            if not isinstance(body, list):
+                continue
+            i = 0
+            while i + 1 < len(body):
+                a, b = body[i], body[i + 1]
+                ok = all(isinstance(x, ast.Assign) and len(x.targets) == 1 and isinstance(x.targets[0], ast.Name)
+                         and isinstance(x.value, ast.BinOp) and isinstance(x.value.op, (ast.FloorDiv, ast.Mod)) for x in (a, b))
+                if ok and type(a.value.op) is not type(b.value.op) \
+                        and ast.dump(a.value.left) == ast.dump(b.value.left) and ast.dump(a.value.right) == ast.dump(b.value.right):
+                    q, r = (a, b) if isinstance(a.value.op, ast.FloorDiv) else (b, a)
+                    operands = {n.id for n in ast.walk(a.value) if isinstance(n, ast.Name)}
+                    pure = not any(isinstance(n, (ast.Call, ast.Await, ast.Yield)) for n in ast.walk(a.value))
+                    if pure and q.targets[0].id != r.targets[0].id and not ({q.targets[0].id, r.targets[0].id} & operands):
+                        new = ast.Assign(
+                            targets=[ast.Tuple(elts=[ast.Name(id=q.targets[0].id, ctx=ast.Store()),
+                                                     ast.Name(id=r.targets[0].id, ctx=ast.Store())], ctx=ast.Store())],
+                            value=ast.Call(func=ast.Name(id="divmod", ctx=ast.Load()), args=[a.value.left, a.value.right], keywords=[]))
+                        body[i:i + 2] = [ast.copy_location(new, a)]
+                        done += 1
+                i += 1
+    return done
+
+
+def _fold_loop_target_copies(fn: ast.FunctionDef) -> int:
+    """`for (t0, t1) in it: a, b = (t0, t1); ...` with t0, t1 used nowhere else is `for (a, b) in it: ...`."""
+    done = 0
+    for lp in [n for n in ast.walk(fn) if isinstance(n, ast.For)]:
+        if not (isinstance(lp.target, ast.Tuple) and all(isinstance(e, ast.Name) for e in lp.target.elts) and lp.body):
+            continue
+        st = lp.body[0]
+        if not (isinstance(st, ast.Assign) and len(st.targets) == 1 and isinstance(st.targets[0], ast.Tuple)
+                and isinstance(st.value, ast.Tuple) and len(st.value.elts) == len(lp.target.elts) == len(st.targets[0].elts)
+                and all(isinstance(e, ast.Name) for e in st.targets[0].elts)
+                and all(isinstance(e, ast.Name) for e in st.value.elts)):
+            continue
+        names = [e.id for e in lp.target.elts]
+        if [e.id for e in st.value.elts] != names or len(set(names)) != len(names):
+            continue
+        uses = sum(1 for n in ast.walk(fn) if isinstance(n, ast.Name) and n.id in names)
+        if uses != 2 * len(names) or len(lp.body) < 2:
+            continue
+        lp.target = ast.copy_location(ast.Tuple(elts=[ast.Name(id=e.id, ctx=ast.Store()) for e in st.targets[0].elts], ctx=ast.Store()), lp.target)
+        del lp.body[0]
+        done += 1
+    return done
+
+
 def apply(tree: ast.Module, module: str = "") -> list[str]:
     """Dissolve transparent helpers of `tree` into their callers (in place). -> names inlined (one per call site)."""
     if _has_walrus(tree):
@@ -768,6 +902,8 @@ def apply(tree: ast.Module, module: str = "") -> list[str]:
     for n in ast.walk(tree):
         if isinstance(n, ast.FunctionDef):
             aliases += _propagate_self_aliases(n)
+            aliases += _sugar_divmod(n)
+            aliases += _fold_loop_target_copies(n)
             if any(isinstance(c, ast.Call) and _dotted(c.func) in ("itertools.count", "count") for c in ast.walk(n)):
                 aliases += _desugar_count_zip(n)
     if aliases:
